@@ -20,6 +20,11 @@ Monitors
       nm_to_<map>.*               for every valid (n, m), n <= N: nm_to_x(n, m) == integer reference and x_to_nm undoes it
       probe.*                     the same per-index clauses on isolated large indices (block edges k(k+1)/2, k^2, +-1,
                                   2^e +- 1, random) up to 2^31 - 1
+      boundary.*                  class I (structural sweep): EVERY block joint -- the triangular numbers T(k) = k (k + 1) / 2 and the squares k^2,
+                                  each with its neighbours +- 1, +- 2 -- for all k up to the deciding bound (T(k), k^2 < 2^31; k <= 65 535 /
+                                  46 340) through ANSI and Fringe in both tiers; through Noll and XY (O(sqrt j) per call) every k <= 2048 plus a
+                                  random sample of joints up to the bound in the quick tier, every triangular joint to the bound in thorough;
+                                  the two inverses at both ends and at the centre of every radial order n up to the bound of their image
       forms.*                     class E (argument-form equivalence): the same clauses with the index / the (n, m) pair handed
                                   over as numpy.uint32 / uint64 / int32 / int64 scalars, 0-d integer arrays (signed and unsigned)
                                   and mixed pairs, for every map and both inverses; the set of in-domain forms is the table
@@ -42,7 +47,10 @@ RULE = ('every index from the first one up to the end of the first complete bloc
         'or one INTERLEAVED sequence over the four maps and the two inverses (same index through all maps, round trips '
         'through the inverses between forward calls, block-boundary hops alternating between maps, random mixes, the '
         'configuration switched 64 -> 32 -> 64 inside the sequence, the same numpy index object re-used, every call in another '
-        'argument form); ARGUMENT FORMS (class E): every complete block below index 2600 (thorough 40000), every valid (n, m) and '
+        'argument form); BLOCK JOINTS (class I): the indices T(k) - 2 .. T(k) + 2 and k^2 - 2 .. k^2 + 2 for every k with T(k), k^2 < 2^31 through '
+        'ANSI / Fringe (all k in both tiers) and Noll / XY (quick: every k <= 2048 + 160 random joints up to the bound; thorough: every '
+        'triangular joint to the bound, squares to k <= 8192 + random), every 16th k under precision 32, and for the two inverses the orders '
+        'm = -+n, -+(n-2), |m| <= 3 of every radial order n up to the bound of their image; ARGUMENT FORMS (class E): every complete block below index 2600 (thorough 40000), every valid (n, m) and '
         'isolated large indices once more with the index / pair as numpy.uint32 / uint64 / int32 / int64 scalars, signed and '
         'unsigned 0-d arrays and mixed pairs (table FORM_DOMAIN; 32-bit containers up to 2^27); `evaluations` '
         'counts the individual indices evaluated inside the blocks, `distinct_nontrivial` counts distinct case descriptors '
@@ -62,7 +70,8 @@ REQUIRED = ['noll_to_nm.valid-order', 'fringe_to_nm.valid-order', 'ansi_j_to_nm.
             'nm_to_fringe.eq-integer-reference', 'nm_to_ansi_j.eq-integer-reference', 'nm_to_fringe.inverse', 'nm_to_ansi_j.inverse',
             'probe.noll', 'probe.ansi', 'probe.fringe', 'probe.xy',
             'order.noll', 'order.ansi', 'order.fringe', 'order.xy', 'interleaved.forward', 'interleaved.inverse',
-            'precision32.sweep', 'narrow-int.sweep', 'forms.forward', 'forms.inverse', 'forms.probe']
+            'precision32.sweep', 'narrow-int.sweep', 'forms.forward', 'forms.inverse', 'forms.probe',
+            'boundary.noll', 'boundary.ansi', 'boundary.fringe', 'boundary.xy', 'boundary.nm_to_fringe', 'boundary.nm_to_ansi_j']
 
 CTX = None
 _INVALID = [False]     # set by a contract when the call just made returned an invalid image
@@ -504,6 +513,9 @@ def _run(ctx):
                               desc, j=j, other=seen[im], image=list(im))
             seen[im] = j
 
+    # --- 3a. class I: EVERY block boundary +- 2 up to the deciding bound (structural sweep, not a sample) -----------
+    boundaries(ctx, tables, P)
+
     # --- 3b. call-order independence: the image of j must not depend on which indices were asked before ----------
     # (a map that keeps a scan position / memo between calls is only exposed by non-monotone query sequences:
     #  descending sweeps, hops across block boundaries right after a call in the block above, random order)
@@ -593,6 +605,120 @@ def _run(ctx):
 
     _merge_suffix(ctx, '/precision32')
     ctx.exhaustive = True
+
+
+JMAX = 2 ** 31 - 1
+K_TRI = 65535          # largest k with T(k) + 2 <= 2^31 - 1   (T(65535) = 2 147 450 880)
+K_SQ = 46340           # largest k with k^2 + 2 <= 2^31 - 1     (46340^2  = 2 147 395 600)
+SLOW = ('noll', 'xy')  # maps whose cost per call grows like sqrt(j) on the reference tree (python loops over the row)
+
+
+def _boundary_case(ctx, name, T, family, k, js, prec):
+    """One structural case: the indices `js` (a block boundary and its neighbours) through map `name`."""
+    desc = {'wl': 'boundary', 'map': name, 'family': family, 'k': k, 'precision': prec, 'class': f'boundary:{name}:{family}'}
+    ctx.case(desc)
+    ctx.evaluations += len(js) - 1
+    sfx = '/boundary' if prec == 64 else '/boundary/precision32'
+    seen = {}
+    with precision(prec):
+        for j in js:
+            ctx.observe(f'boundary.{name}')
+            im = _eval(ctx, name, T, j, j, sfx, desc)
+            if im is None:
+                continue
+            _check_index(ctx, name, T, j, j, im, None, T['blk_of'](T['ref'](j)), sfx, desc, int)
+            if im in seen:
+                ctx.violation(f'C11/{T["fn"]}/duplicate-image{sfx}', f'{T["fn"]} is not one-to-one on the indices around a block boundary',
+                              desc, j=j, other=seen[im], image=list(im))
+            seen[im] = j
+
+
+def boundaries(ctx, tables, P):
+    """Class I (structural sweep).  The maps are piecewise: one piece per block, the pieces meet at the triangular numbers
+    T(k) = k (k + 1) / 2 (Noll, ANSI, XY; ANSI starts at 0 so its blocks end at T(k) - 1) and at the squares k^2 (Fringe).  A table
+    with a fence-post, a rounding guard or a branch `if idx < LIMIT` is wrong at ONE of these joints and nowhere else, so the
+    joints are enumerated instead of sampled: for every k up to the deciding bound (T(k), k^2 < 2^31) the indices T(k) - 2 .. T(k) + 2
+    and k^2 - 2 .. k^2 + 2 go through every map and are judged by the per-index clauses (valid order, block, rule, inverse,
+    integer reference) and pairwise distinctness.  ANSI / Fringe are O(1) per call: all k in either tier.  Noll / XY walk the
+    row (O(sqrt j) per call): quick = every k <= 2048 (triangular and squares) + a random sample of k beyond, thorough = every
+    triangular joint to the bound, squares to k <= 8192 + a random sample beyond.  Every 16th k runs under config.precision = 32.
+    The inverses get the same treatment in (n, m) space: for every n up to the bound the orders at the two ends of the radial
+    order (m = -+n, -+(n - 2)) and at its centre (|m| <= 3)."""
+    rng = ctx.rng('c11-boundaries')
+    first = FWD_FIRST
+    k_slow_all = ctx.pick(2048, K_TRI)
+    k_slow_sq = ctx.pick(2048, 8192)
+    n_slow_rand = ctx.share(ctx.pick(160, 1600))
+    for name, T in tables.items():
+        slow = name in SLOW
+        ktri = k_slow_all if slow else K_TRI
+        ksq = k_slow_sq if slow else K_SQ
+        for k in range(1, max(ktri, ksq) + 1):
+            if not ctx.mine(k):
+                continue
+            prec = 32 if k % 16 == 5 else 64
+            if k <= ktri:
+                t = k * (k + 1) // 2
+                _boundary_case(ctx, name, T, 'triangular', k, [j for j in range(t - 2, t + 3) if first[name] <= j <= JMAX], prec)
+            if k <= ksq:
+                s = k * k
+                _boundary_case(ctx, name, T, 'square', k, [j for j in range(s - 2, s + 3) if first[name] <= j <= JMAX], prec)
+        if slow:
+            # beyond the exhaustive part: random joints up to the bound (cost ~ k per call)
+            for i in range(n_slow_rand):
+                if i % 2 == 0 and ktri < K_TRI:
+                    k = int(rng.integers(ktri + 1, K_TRI + 1))
+                    t = k * (k + 1) // 2
+                    _boundary_case(ctx, name, T, 'triangular', k, list(range(t - 2, t + 3)), 64)
+                elif ksq < K_SQ:
+                    k = int(rng.integers(ksq + 1, K_SQ + 1))
+                    s = k * k
+                    _boundary_case(ctx, name, T, 'square', k, list(range(s - 2, s + 3)), 64)
+    # the two inverses at the ends and at the centre of every radial order up to the bound of their image
+    for fn, inv, ref, back, nmax in (('nm_to_fringe', P.nm_to_fringe, ii.nm_to_fringe, P.fringe_to_nm, K_SQ - 1),
+                                     ('nm_to_ansi_j', P.nm_to_ansi_j, ii.nm_to_ansi, P.ansi_j_to_nm, K_TRI - 1)):
+        for n in range(0, nmax + 1):
+            if not ctx.mine(n):
+                continue
+            ms = sorted({m for m in (-n, -n + 2, n - 2, n, n % 2, -(n % 2), 2 + n % 2, -2 - n % 2) if abs(m) <= n and (n - abs(m)) % 2 == 0})
+            desc = {'wl': 'nm-boundary', 'fn': fn, 'n': n, 'class': f'nm-boundary:{fn}'}
+            ctx.case(desc)
+            ctx.evaluations += len(ms) - 1
+            for m in ms:
+                ctx.observe(f'boundary.{fn}')
+                _INVALID[0] = False
+                try:
+                    j = _as_int(inv(n, m))
+                except Exception as e:
+                    ctx.violation(f'C11/{fn}/raises:{type(e).__name__}/boundary', f'{fn}(n, m) raises {type(e).__name__}: {str(e)[:120]}', desc, nm=[n, m])
+                    continue
+                if _INVALID[0]:
+                    continue
+                if j != ref(n, m):
+                    ctx.violation(f'C11/{fn}/ne-integer-reference/boundary', f'{fn}(n, m) differs from the published formula (integer arithmetic) '
+                                  'at the end / centre of a radial order', desc, nm=[n, m], got=j, ref=ref(n, m))
+                    continue
+                _INVALID[0] = False
+                try:
+                    nm = back(j)
+                    nm = (_as_int(nm[0]), _as_int(nm[1]))
+                except Exception as e:
+                    ctx.violation(f'C11/{fn}/roundtrip-raises:{type(e).__name__}/boundary', f'{back.__name__}({fn}(n, m)) raises', desc, nm=[n, m], j=j)
+                    continue
+                if not _INVALID[0] and nm != (n, m):
+                    ctx.violation(f'C11/{fn}/roundtrip/boundary', f'{back.__name__}({fn}(n, m)) != (n, m)', desc, nm=[n, m], j=j, got=list(nm))
+    _merge_suffix(ctx, '/precision32')
+    _merge_suffix(ctx, '/boundary')
+    _merge_suffix(ctx, '/boundary/precision32')
+    # the isolated large-index probes (section 3) hit joints too: the same clause failing there and here is one defect, one key
+    for k_ in [k_ for k_ in ctx.violations if '/boundary' in k_]:
+        twin = k_.replace('/boundary', '/probe', 1)
+        if twin in ctx.violations:
+            v_ = ctx.violations.pop(k_)
+            ctx.violations[twin]['count'] += v_['count']
+    ctx.note('block_boundaries', {'fast_maps(ansi,fringe)': f'every T(k)+-2, k <= {K_TRI}, and every k^2+-2, k <= {K_SQ}',
+                                  'slow_maps(noll,xy)': f'every T(k)+-2, k <= {k_slow_all}, every k^2+-2, k <= {k_slow_sq}, + random joints to the bound',
+                                  'inverses': f'ends and centre of every radial order n <= {K_SQ - 1} (Fringe) / {K_TRI - 1} (ANSI)'})
 
 
 def foreign_traffic(ctx):
